@@ -32,9 +32,9 @@ impl Prop for C07 {
         let mut v = vec![
             Phase::new("memory-limit", tier.pick(400, 40000)).min_cases(tier.pick(100, 8000)).timeouts(120, tier.pick(300, 1200)),
             Phase::new("stack-limit", tier.pick(400, 40000)).min_cases(tier.pick(100, 8000)).timeouts(120, tier.pick(300, 1200)),
-            Phase::new("tail-constant", tier.pick(60, 600)).min_cases(tier.pick(20, 200)).timeouts(300, tier.pick(300, 1200)),
+            Phase::new("tail-constant", tier.pick(60, 1200)).min_cases(tier.pick(20, 300)).timeouts(300, tier.pick(300, 1200)),
             Phase::new("deep", tier.pick(24, 200)).min_cases(tier.pick(8, 60)).timeouts(300, tier.pick(300, 1200)),
-            Phase::new("interrupt", tier.pick(96, 1500)).min_cases(tier.pick(30, 400)).timeouts(120, tier.pick(300, 1200)),
+            Phase::new("interrupt", tier.pick(96, 4000)).min_cases(tier.pick(30, 800)).timeouts(120, tier.pick(300, 1200)),
         ];
         if tier == Tier::Thorough {
             v.push(Phase::new("deep-release", 100).build(Build::Release).min_cases(30).timeouts(300, 1200));
